@@ -155,7 +155,9 @@ static void body_harness_dispatch(const int AC) {
   a1[D1MAX] = 0; a2[D2MAX] = 0;
   stub_result = answer & 1; nseen = 0;
   uint32_t ok = h_parse(AC, a1, a2, 0, 0, 0);
-  OBSERVE(ok);
+  { /* the verdict is comparable between the worlds only when no handler is involved: the stubbed handlers answer arbitrarily, the real ones do not */
+    int fl, h1 = H_NONE, h2 = H_NONE, rj; ref_dispatch(a1, &fl, &h1, &rj); if (AC > 2) ref_dispatch(a2, &fl, &h2, &rj);
+    if (AC < 2 || (h1 == H_NONE && h2 == H_NONE)) OBSERVE(ok); }
   CHECK(ok == 0 || ok == 1, "the vector is rejected or a configuration is produced");
   CHECK(!h_flag(F_HELP) || !ok, "asking for help rejects the vector (no test runs)");
   if (DISPATCH_IS_STUB) {
@@ -191,7 +193,7 @@ static void body_harness_dispatch_near(const int K) {
   stub_result = answer & 1; nseen = 0;
   TEXT(a1); catlit(a1, vopt[K]); a1[t_len(a1) - 1] = 0; cat(a1, two);
   uint32_t ok = h_parse(2, a1, 0, 0, 0, 0);
-  OBSERVE(ok);
+  { int fl, h1 = H_NONE, rj; ref_dispatch(a1, &fl, &h1, &rj); if (h1 == H_NONE) OBSERVE(ok); }      /* see body_harness_dispatch */
   CHECK(ok == 0 || ok == 1, "the vector is rejected or a configuration is produced");
   if (DISPATCH_IS_STUB) {
     struct expect e; defaults(&e);
